@@ -341,6 +341,12 @@ func postC10(res *RunResult) {
 		if !have || !ok2 {
 			continue
 		}
+		// the clause is about files with one file_id message (what FIT requires of a valid file): with a
+		// later file_id record Decode reports the later message (single-valued fields keep the last one),
+		// DecodeHeaderAndFileID by construction the first
+		if dc.entry == "headerfid" && countFileIdRecords(dc.data) != 1 {
+			continue
+		}
 		if dr.tag != "ok" {
 			addViolation(res, c, res.Stats.impl[i], dc.entry+" fails on a stream Decode accepts")
 			continue
